@@ -225,9 +225,9 @@ def gen_ffi(rng, size):
 def generate(ctx):
     rng = ctx.rng
     cases = []
-    for size in ctx.n([40, 120, 300, 300, 600, 600, 1000, 1000], [40, 120] + [300] * 6 + [600] * 10 + [1000] * 12 + [2000] * 6):
+    for size in ctx.n([40, 120, 300, 600, 600, 1000], [40, 120] + [300] * 6 + [600] * 10 + [1000] * 12 + [2000] * 6):
         cases.append(gen_raw(rng, size))
-    for size in ctx.n([60, 200, 400, 400], [60] + [200] * 5 + [400] * 10 + [800] * 6):
+    for size in ctx.n([60, 200, 400], [60] + [200] * 5 + [400] * 10 + [800] * 6):
         cases.append(gen_ffi(rng, size))
     return cases
 
